@@ -23,7 +23,8 @@ from ..common import PY, REPO, VERIF, MachineryError, write_cfg
 
 CHILD = str(VERIF / 'harness' / 'c20_child.py')
 STAGES = ['import_fail', 'builddir', 'pyx_open', 'pyx_written', 'cythonized', 'built', 'published', 'cleaned']
-TIMEOUT = 600
+TIMEOUT = 900
+HANG_IDLE = 90        # seconds without any CPU use by the request's whole process group = it waits for nothing
 
 
 def expected():
@@ -57,14 +58,45 @@ class Child:
                                   stdout=subprocess.DEVNULL, stderr=subprocess.PIPE, start_new_session=True)
         self.stderr = b''
 
+    def group_cpu(self):
+        """CPU seconds consumed so far by all live processes of the child's session (interpreter, cython, cc, ld)"""
+        tot = 0.0
+        tck = os.sysconf('SC_CLK_TCK')
+        for d in os.listdir('/proc'):
+            if not d.isdigit():
+                continue
+            try:
+                f = open('/proc/%s/stat' % d).read()
+                rest = f[f.rindex(')') + 2:].split()
+                if int(rest[3]) == self.p.pid:          # session id
+                    tot += (int(rest[11]) + int(rest[12])) / tck
+            except Exception:
+                pass
+        return tot
+
     def wait(self, timeout=TIMEOUT):
-        try:
-            _, self.stderr = self.p.communicate(timeout=timeout)
-        except subprocess.TimeoutExpired:
-            self.killgroup()
-            _, self.stderr = self.p.communicate()
-            return 'timeout'
-        return self.p.returncode
+        """returncode | 'hung' (no exit AND no CPU use by the whole process group: a wait that nobody will end) |
+        'timeout' (still computing: the machine is slow, no verdict)"""
+        t0 = time.time()
+        last_cpu, idle_since = self.group_cpu(), time.time()
+        while True:
+            try:
+                _, self.stderr = self.p.communicate(timeout=10)
+                return self.p.returncode
+            except subprocess.TimeoutExpired:
+                pass
+            cpu = self.group_cpu()
+            if cpu - last_cpu > 0.3:
+                last_cpu, idle_since = cpu, time.time()
+            verdict = None
+            if time.time() - idle_since > HANG_IDLE:
+                verdict = 'hung'
+            elif time.time() - t0 > timeout:
+                verdict = 'timeout'
+            if verdict:
+                self.killgroup()
+                _, self.stderr = self.p.communicate()
+                return verdict
 
     def killgroup(self):
         try:
@@ -84,6 +116,9 @@ def judge(ctx, exp, child, rc, sig, detail):
     if rc == 'timeout':
         ctx.skip('timeout in %s' % sig)
         return True
+    if rc == 'hung':
+        ctx.violation('request-hung %s' % sig, dict(detail, note='no exit and no CPU use by the process group for %d s' % HANG_IDLE))
+        return False
     res = child.result()
     if rc != 0 or not res or not res.get('ok'):
         d = dict(detail)
